@@ -326,29 +326,45 @@ impl Family for SmallComps {
     }
 }
 
-/// lock-step client, one query whose reply has every total size in a range (one text cell of
-/// w bytes, or r rows of 10-byte cells): the reply must be flushed whatever its size is
+/// lock-step client, one query whose reply has every total size in a range: one text cell of
+/// every width, and r rows of a fixed cell width for every r (several widths, so that replies
+/// approach any output-side buffering threshold in different strides): the reply must be flushed
+/// whatever its size and packet structure is
 struct ReplySizes {
-    max_w: usize,
+    cases: Vec<(usize, usize)>, // (cell width, rows); rows == usize::MAX: one row of one cell of that width
+}
+impl ReplySizes {
+    fn new(max_total: usize) -> Self {
+        let mut cases = Vec::new();
+        for w in 0..=max_total {
+            cases.push((w, usize::MAX));
+        }
+        for cw in [0usize, 1, 2, 5, 9, 16, 37, 100, 255, 1000, 1455, 1456, 1459, 1460, 4000] {
+            let per = 4 + if cw < 251 { 1 } else { 3 } + cw;
+            for r in 0..=(max_total / per) {
+                cases.push((cw, r));
+            }
+        }
+        ReplySizes { cases }
+    }
 }
 impl Family for ReplySizes {
     fn name(&self) -> String {
         "reply-sizes-lock-step".into()
     }
     fn len(&self) -> u64 {
-        (self.max_w as u64 + 1) * 2
+        self.cases.len() as u64
     }
     fn run(&self, idx: u64, st: &mut Stats) -> Result<(), Violation> {
-        let w = (idx / 2) as usize;
-        let by_rows = idx % 2 == 1;
+        let (w, r) = self.cases[idx as usize];
+        let by_rows = r != usize::MAX;
         st.nontrivial += 1;
         st.bump("reply_sizes");
         let cols = Arc::new(vec![col("c", ColumnType::MYSQL_TYPE_BLOB, ColumnFlags::empty())]);
         let mut prog = vec![WOp::Start(cols)];
         if by_rows {
-            // w/10 rows of one 9-byte cell (10 bytes of payload each)
-            for _ in 0..w / 10 {
-                prog.push(WOp::WriteRow(vec![Val::Bytes(vec![b'r'; 9])]));
+            for _ in 0..r {
+                prog.push(WOp::WriteRow(vec![Val::Bytes(vec![b'r'; w])]));
             }
         } else {
             prog.push(WOp::WriteRow(vec![Val::Bytes(vec![b'w'; w])]));
@@ -372,26 +388,27 @@ impl Family for ReplySizes {
             _ => Behavior::Silent,
         })));
         st.transitions += o.sim.n_reads as u64;
+        let shape = if by_rows { format!("{} rows of one {}-byte cell", r, w) } else { format!("one row of one {}-byte cell", w) };
         if let ConnResult::Panic(l, m) = &o.res {
             return Err(Violation::new(panic_key(l, m), format!("run_on panicked at {}: {}", l, m)));
         }
         if o.sim.hang {
             return Err(Violation::new(
                 "hang",
-                format!("reply with {} ({}): the server read again while {} written bytes were not flushed; the lock-step client waits forever", w, if by_rows { "bytes of 10-byte rows" } else { "one cell of that many bytes" }, o.sim.out.len() - o.sim.flushed),
+                format!("reply of {}: the server read again while {} of {} written bytes were not flushed; the lock-step client waits forever", shape, o.sim.out.len() - o.sim.flushed, o.sim.out.len()),
             ));
         }
         if !o.res.is_ok() {
-            return Err(Violation::new("result-not-ok", format!("run_on returned {}", o.res.short())));
+            return Err(Violation::new("result-not-ok", format!("reply of {}: run_on returned {}", shape, o.res.short())));
         }
-        decode_all(&o.sim.out[..o.sim.flushed], &conv, &s.last_seq, 2, false).map_err(|e| Violation::new("reply-decode", e))?;
+        decode_all(&o.sim.out[..o.sim.flushed], &conv, &s.last_seq, 2, false).map_err(|e| Violation::new("reply-decode", format!("reply of {}: {}", shape, e)))?;
         Ok(())
     }
     fn describe(&self, idx: u64) -> J {
-        json!({"reply": if idx % 2 == 1 { format!("{} rows of one 9-byte cell", idx / 2 / 10) } else { format!("one row with one cell of {} bytes", idx / 2) }, "client": "strict lock-step"})
+        let (w, r) = self.cases[idx as usize];
+        json!({"reply": if r != usize::MAX { format!("{} rows of one {}-byte cell", r, w) } else { format!("one row with one cell of {} bytes", w) }, "client": "strict lock-step"})
     }
 }
-
 
 /// lock-step client whose request is large (multi-packet, in particular an exact multiple of
 /// 2^24-1 bytes with its empty closing packet): whatever read ends wherever near the request's
@@ -470,20 +487,20 @@ pub fn build(quick: bool) -> Check {
         families.push(Box::new(Batchings { alpha: a.clone(), len: 1, max_cuts: 2 }));
         families.push(Box::new(Batchings { alpha: a.clone(), len: 2, max_cuts: 1 }));
         families.push(Box::new(SmallComps::new(14)));
-        families.push(Box::new(ReplySizes { max_w: 20000 }));
+        families.push(Box::new(ReplySizes::new(30_000)));
         families.push(Box::new(LargeRequests::new(&[70_000, MAXP - 1, MAXP, 2 * MAXP], 1)));
     } else {
         families.push(Box::new(Batchings { alpha: a.clone(), len: 5, max_cuts: 0 }));
         families.push(Box::new(Batchings { alpha: a.clone(), len: 2, max_cuts: 2 }));
         families.push(Box::new(Batchings { alpha: a.clone(), len: 4, max_cuts: 1 }));
         families.push(Box::new(SmallComps::new(15)));
-        families.push(Box::new(ReplySizes { max_w: 140000 }));
+        families.push(Box::new(ReplySizes::new(200_000)));
         families.push(Box::new(LargeRequests::new(&[4092, 70_000, MAXP - 1, MAXP, MAXP + 1, 2 * MAXP - 1, 2 * MAXP, 2 * MAXP + 1], 2)));
     }
     Check {
         id: "C12",
         level: "model_checking",
-        rule: "command lists over {query->OK, query->resultset, prepare, execute, long data, close, ping, init db, field list} (after a fixed PREPARE) x all batchings (the client waits for all owed replies at any subset of message boundaries, from lock-step to fully pipelined; it never sends before the greeting) x cut sets of <= 2 positions; plus all 2^n compositions of small pipelined streams; plus a strict lock-step client receiving replies of every size 0..20000 (140000 in thorough) bytes as one cell and as many small rows (output-side buffering thresholds); plus a strict lock-step client whose request is 70 KB .. 2*(2^24-1) bytes (exact multiples with their empty closing packet included) under <= 1 (thorough: 2) cuts around every packet header and the last six bytes of the request. Invariant at every read(): the flushed output holds a complete reply (strictly decoded) for every message fully delivered so far. A read while the waiting client holds back its bytes is a hang.".into(),
+        rule: "command lists over {query->OK, query->resultset, prepare, execute, long data, close, ping, init db, field list} (after a fixed PREPARE) x all batchings (the client waits for all owed replies at any subset of message boundaries, from lock-step to fully pipelined; it never sends before the greeting) x cut sets of <= 2 positions; plus all 2^n compositions of small pipelined streams; plus a strict lock-step client receiving replies of every size 0..30000 (200000 in thorough) bytes as one cell, and as r rows for every r up to that total with cells of 0, 1, 2, 5, 9, 16, 37, 100, 255, 1000, 1455, 1456, 1459, 1460 and 4000 bytes (output-side buffering thresholds are approached in many strides); plus a strict lock-step client whose request is 70 KB .. 2*(2^24-1) bytes (exact multiples with their empty closing packet included) under <= 1 (thorough: 2) cuts around every packet header and the last six bytes of the request. Invariant at every read(): the flushed output holds a complete reply (strictly decoded) for every message fully delivered so far. A read while the waiting client holds back its bytes is a hang.".into(),
         assumptions: vec!["bytes written but not flushed are invisible to the simulated client".into()],
         bounds: json!({"max_commands": if quick {4} else {5}, "max_cuts": 2}),
         exhaustive: true,
